@@ -56,10 +56,9 @@ Check C04_sem_ok : forall bits a b c imm,
             /\ PfC04a.zrange bits (RunC04a.zsem o bits (eval a) (eval b) (eval c) imm).
 Print Assumptions C04_sem_ok.
 
-(* the opcodes for which `sem` is the specification function (no model of the code yet) *)
-Example C04_opaque_ops :
-  History.opaque_ops = [History.WrMul; History.WrDiv; History.WrRem; History.WrPow; History.Gcd;
-                        History.AddMod; History.MulMod; History.PowMod; History.Root; History.MulRedc].
+(* the opcodes for which `sem` is still the specification function (their model belongs to C13);
+   all other opcodes run the models of the crate's code *)
+Example C04_opaque_ops : History.opaque_ops = [History.WrPow; History.Root].
 Proof. reflexivity. Qed.
 
 (* ======================= (b) equality, hashing, ordering ======================= *)
